@@ -26,7 +26,7 @@ def snapshot():
 def main():
     SNAP = snapshot()
     names = sys.argv[1:] or sorted(os.path.basename(os.path.dirname(p)) for p in glob.glob(os.path.join(VERIF, "seeded", "*", "patch.diff")))
-    out_path = os.path.join(VERIF, "seeded", "MATRIX.json")
+    out_path = os.environ.get("MATRIX_OUT") or os.path.join(VERIF, "seeded", "MATRIX.json")  # MATRIX_OUT: partial result of one of several parallel runs
     res = json.load(open(out_path)) if os.path.exists(out_path) else {}
     head = sh("git -C /repo rev-parse --short HEAD").stdout.strip()
     try:
@@ -43,7 +43,7 @@ def main():
                     res[name] = {"property": prop, "repo_head": head, "status": "patch no longer applies: " + r.stdout[-200:]}
                     print(name, "patch does not apply")
                     continue
-                env = dict(os.environ, VERIF_REPO=wt, VERIF_OUT_DIR="/tmp/verif-tool-out")
+                env = dict(os.environ, VERIF_REPO=wt, VERIF_OUT_DIR="/tmp/verif-tool-out-%d" % os.getpid())
                 c = sh("./check %s quick" % prop, cwd=SNAP, env=env)
                 caught = "VIOLATION property=" in c.stdout
                 kinds = sorted(set(re.findall(r"^--- ([a-z0-9-]+):", c.stdout, re.M)))[:4]
@@ -54,7 +54,7 @@ def main():
                 shutil.rmtree(wt, ignore_errors=True)
             json.dump(res, open(out_path, "w"), indent=1, sort_keys=True)
     finally:
-        shutil.rmtree("/tmp/verif-tool-out", ignore_errors=True)
+        shutil.rmtree("/tmp/verif-tool-out-%d" % os.getpid(), ignore_errors=True)
     sh("git -C /repo worktree prune")
     shutil.rmtree(SNAP, ignore_errors=True)
 
